@@ -55,6 +55,10 @@ def run(ctx):
         if (o["rule"] == "C04-R3" and o["key"].startswith(("error-bits", "invalid-only-for-protocol-reasons", "defined-values-accepted"))) or \
                 (o["rule"] == "C04-R6" and o["key"].startswith("Payload(")):  # (the decoded payload object holds the message's own bytes)
             res.check(o["ok"], "C01-R6", o["key"], o["loc"], o["detail"], o["detail"])
+    # every complete message is accepted: the message validator rejects for the protocol's reasons only — the error-in-payload bit and nothing
+    # else of the common flags (C03-R4 / C04-R4, shared)
+    from rules import c03 as _c03
+    _c03.rule_message_validator_exact(fb, res, "C01-R6", "message-validator:")
     res.floor("C01-R6", 2)
     # what the encoder writes into the two headers, the decoder reads back: get(set(v)) == v for every field of the frame header and the
     # message header and for every value — message types the API does not name included (a generic message of type 0x04 comes back as 0x04)
